@@ -12,8 +12,8 @@ from harness.pool import Pool
 
 def run(ctx) -> None:
     mh = 2 if ctx.quick else 3
-    ctx.rule = (f"histories = every sequence of <= {mh} of 22 sources (valid, macros, symbols, two tables under one path, file API from two directories, two custom .map layouts, "
-                "HiROM, incbin, include_ips, .include (good and failing inside the included file), failures in scan/parse/expansion/label pass/emission) followed by each of 16 probes "
+    ctx.rule = (f"histories = every sequence of <= {mh} of 23 sources (valid, macros, symbols, two tables under one path, file API from two directories, two custom .map layouts, "
+                "HiROM, incbin, include_ips, .include (good and failing inside the included file), failures in scan/parse/expansion/label pass/emission) followed by each of 18 probes "
                 "run twice; non-trivial = distinct (history, probe)")
     ctx.trusted = ["TLC 1.8", "spec/Session.tla", "global projection in harness/drivers.py (every non-callable module-level "
                    "value and class attribute of a816.*/script.*)"]
